@@ -41,3 +41,9 @@
 (define-fun spec!CompareSpec ((a Any) (b Any)) (_ BitVec 64)
   (ite (and (spec!numeric a) (spec!numeric b)) (spec!sgn3 (spec!val a) (spec!val b))
        (spec!cmp3 (spec!FmtV a) (spec!FmtV b))))
+
+; Cmp: the same order under an opaque name: Cmp(a, b) is, by definition, what compare.Compare returns on ordered values, i.e.
+; CompareSpec(a, b) (clause compare.Compare.E.order proves result == CompareSpec(a, b); the definitional clause `abstract` names it).
+; The evaluator's contracts (WHERE, ORDER BY, IN, BETWEEN) are stated over Cmp so that their obligations do not unfold the
+; floating-point definition of CompareSpec.
+(declare-fun spec!Cmp (Any Any) (_ BitVec 64))
